@@ -8,6 +8,7 @@ package verifsim
 import (
 	"fmt"
 	"hash/fnv"
+	"runtime"
 	"sort"
 	"strings"
 	"time"
@@ -87,6 +88,36 @@ type Task struct {
 	rng    uint64
 	factor int64
 	steps  int
+	gid    uint64 // id of the goroutine that runs the task (identity for hooks that get no context)
+}
+
+// goid returns the id of the calling goroutine (parsed from its stack header; about a microsecond).
+func goid() uint64 {
+	var buf [40]byte
+	n := runtime.Stack(buf[:], false)
+	// "goroutine 123 [running]:"
+	var id uint64
+	for i := len("goroutine "); i < n && buf[i] >= '0' && buf[i] <= '9'; i++ {
+		id = id*10 + uint64(buf[i]-'0')
+	}
+	return id
+}
+
+// taskOfGoroutine finds the task run by goroutine gid (nil for goroutines that are not tasks: servers, library
+// workers). Plain reads; tasks are only ever appended.
+//
+//go:norace
+func (s *Sim) taskOfGoroutine(gid uint64) *Task {
+	if s.main != nil && s.main.gid == gid {
+		return s.main
+	}
+	ts := s.tasks
+	for i := len(ts) - 1; i >= 0; i-- {
+		if ts[i].gid == gid {
+			return ts[i]
+		}
+	}
+	return nil
 }
 
 type traceEv struct {
@@ -125,7 +156,7 @@ type Sim struct {
 func NewSim(seed uint64, policy int) *Sim {
 	s := &Sim{epoch: time.Now(), Policy: policy, seed: seed, MaxSteps: 400000}
 	s.trace = make([]traceEv, 0, 512)
-	s.main = &Task{ID: 0, Name: "main", rng: splitmix(seed ^ 0xabcdef), factor: 1}
+	s.main = &Task{ID: 0, Name: "main", rng: splitmix(seed ^ 0xabcdef), factor: 1, gid: goid()}
 	s.cur = s.main
 	setWatchSim(s)
 	return s
@@ -265,11 +296,15 @@ func (s *Sim) StartDelay(t *Task) time.Duration { return s.delayFor(t) }
 func (s *Sim) Go(t *Task, fn func()) {
 	d := s.StartDelay(t)
 	go func() {
+		setGid(t, goid())
 		time.Sleep(d)
 		s.SetCur(t)
 		fn()
 	}()
 }
+
+//go:norace
+func setGid(t *Task, g uint64) { t.gid = g }
 
 // TraceString renders the schedule trace (task:point,...) — used for the interleaving hash.
 func (s *Sim) TraceString() string {
